@@ -763,7 +763,7 @@ WRITER_CFGS = [
     ("eq_cut_l2_i1", 4, [1, 1, 1, 1], [1, 1, 1, 1], 23, 1, 2, True),        # a level-2 index block reaches the threshold EXACTLY (23 bytes)
     ("eq_cut_data_l1", 3, [1, 1, 1, 0], [1, 1, 1, 0], 16, 8, 1, True),       # a data block reaches the threshold exactly (4 + 12)
     ("four_cut_l3_i1", 4, [1, 1, 1, 1], [0, 0, 0, 0], 16, 1, 3, True),   # two index levels cut in the same insert
-    ("big_entry_l1", 2, [2, 2, 0, 0], [2, 2, 0, 0], 12, 2, 1, False),       # every entry larger than the block threshold
+    ("big_entry_l1", 2, [2, 2, 0, 0], [2, 2, 0, 0], 13, 2, 1, False),       # every entry alone exceeds the block threshold
 ]
 for _nm, _n, _kl, _vl, _b, _iv, _lv, _q in WRITER_CFGS:
     _name = "c01_writer_ref_" + _nm
@@ -823,9 +823,9 @@ fn %s() {
                        functions=CWB_FUNCS, stubs=["sink = USink (comparing / chopping / failing)"],
                        bounds="%d entries, key lengths %s, value lengths %s (concrete), contents symbolic, interval %d" % (_n, _kl[:_n], _vl[:_n], _iv)))
 for _nm, _n, _kl, _vl, _b, _iv, _lv, _mc, _q in [
-        ("c12_writer_fault_l0", 3, [1, 1, 2, 0], [1, 0, 2, 0], 20, 1, 0, 6, False),
-        ("c12_writer_fault_l0_1e", 1, [1, 0, 0, 0], [1, 0, 0, 0], 64, 8, 0, 6, True),
-        ("c12_writer_fault_l2", 2, [1, 1, 0, 0], [1, 1, 0, 0], 16, 1, 2, 8, False)]:
+        ("c12_writer_fault_l0", 3, [1, 1, 2, 0], [1, 0, 2, 0], 20, 1, 0, 11, False),
+        ("c12_writer_fault_l0_1e", 1, [1, 0, 0, 0], [1, 0, 0, 0], 64, 8, 0, 9, True),   # 2 blocks + 5 trailer writes + flush = 8 calls
+        ("c12_writer_fault_l2", 2, [1, 1, 0, 0], [1, 1, 0, 0], 16, 1, 2, 14, False)]:
     GEN_WRITER.append("""writer_harness_faults!(%s, {
     let (failed, calls) = writer_fault_check(%d, %s, %s, %d, %d, %d, %d);
     kani::cover!(failed);
